@@ -520,6 +520,9 @@ pub fn prop(c: &Case, log: &mut CaseLog) -> Verdict {
     let sc = Scratch::new("c18");
     sc.write_project(&proj, "[build]\nentry = \"main.asm\"\n");
     let run = run_mos(&sc.dir, &["--no-color", "-e", "Short", "test"]);
+    if run.timed_out {
+        return Verdict::Discard("mos killed by the watchdog".into());
+    }
     let detail = |what: &str| format!("{}\n{}\nexpected: {:?}\nexit {:?}\nstdout:\n{}\nstderr:\n{}", what, text, expected, run.code, run.stdout, run.stderr);
     if run.code.is_none() || run.code.map(|c| c > 1).unwrap_or(false) {
         return Verdict::fail(format!("abnormal-exit|{:?}|{:?}", run.code, run.signal), detail("mos test crashed"));
